@@ -132,7 +132,8 @@ def objects(depth, hashable=False):
             st.tuples(st.sampled_from(['set', 'userset']), itemsh).map(lambda t: [t[0], t[1]]),
             st.tuples(st.sampled_from(_MAPS), pairs).map(lambda t: [t[0], t[1]]),
             st.lists(st.tuples(subh, st.integers(0, 3)), max_size=3).map(lambda l: ['counter', [list(p) for p in l]]),
-            st.tuples(st.sampled_from(['selfref-list', 'selfref-dict', 'mutual-lists', 'selfref-tuple-list']),
+            st.tuples(st.sampled_from(['selfref-list', 'selfref-dict', 'mutual-lists', 'selfref-tuple-list', 'selfref-userseq',
+                                       'selfref-userlist', 'selfref-mproxy', 'selfref-usermutual']),
                       st.lists(scalar, max_size=3)).map(lambda t: [t[0], t[1]]),
         ]
     comp = st.one_of(opts)
@@ -158,6 +159,27 @@ def realize(v):
         l = [H.realize(i) for i in v[1]]
         l.append((l,))
         return l
+    if k == 'selfref-userseq':       # cycles made only of user-defined collections (no builtin list / dict on the way)
+        u = H.VUserSeq([H.realize(i) for i in v[1]])
+        u._items.append(u)
+        return u
+    if k == 'selfref-userlist':
+        import collections
+        u = collections.UserList([H.realize(i) for i in v[1]])
+        u.append(u)
+        return u
+    if k == 'selfref-mproxy':
+        import types
+        d = {j: H.realize(i) for j, i in enumerate(v[1])}
+        p = types.MappingProxyType(d)
+        d['proxy'] = p
+        return p
+    if k == 'selfref-usermutual':
+        import collections
+        a = H.VUserSeq([H.realize(i) for i in v[1]])
+        b = collections.UserList([a])
+        a._items.append(b)
+        return a
     if k in _CONT + ('iter', 'gen'):
         items = [realize(i) for i in v[1]]
         return _wrap(k, items)
@@ -311,7 +333,8 @@ def run_case(case):
     evals += 1
     kinds = _kinds(vast, set())
     shape = '+'.join(sorted(k for k in kinds if k in ('keys', 'values', 'items', 'selfref-list', 'selfref-dict', 'mutual-lists',
-                                                      'selfref-tuple-list', 'iter', 'gen', 'userseq', 'userset', 'usermap', 'duckseq', 'duckmap',
+                                                      'selfref-tuple-list', 'selfref-userseq', 'selfref-userlist', 'selfref-mproxy',
+                                                      'selfref-usermutual', 'iter', 'gen', 'userseq', 'userset', 'usermap', 'duckseq', 'duckmap',
                                                       'chainmap', 'mproxy', 'counter', 'ddict', 'odict', 'deque', 'mylist', 'range'))) or 'builtin'
     if hint is not None:
         if (vast[0].startswith('selfref') or vast[0] == 'mutual-lists') and not any(
